@@ -24,6 +24,7 @@ func verifWriteScript(w *Writer) (data []byte, ok bool) {
 	MAXW := vrt.Param("MAXW", 2*BlockSize+2)
 	ncalls := vrt.Choice("ncalls", CALLS+1)
 	for i := 0; i < ncalls; i++ {
+		vrt.Jitter() // native replays: vary the spacing of the API calls
 		switch vrt.Choice("call", 3) {
 		case 0:
 			n := verifLen("wlen", MAXW)
